@@ -72,7 +72,8 @@ TEXT.update({
         text="Lean theorems for every reachable state of the Workers transition system (any callers, any count sequence, any interleaving of call/take/finish/exit): "
              "running <= live workers <= largest count requested; queued ++ running ++ done has no duplicates (exactly once); the finishing worker reports the job it took; "
              "a non-empty queue always has a live worker and some worker step is enabled (no stuck state with work pending); Wait's condition implies nothing is running. "
-             "Starvation-freedom is proved in this enabledness form, not as a fairness leadsTo. Tied by concurrent trace acceptance: hook events from inside the critical sections.",
+             "No starvation as a leads-to theorem: from the moment no new Call arrives, along every run weakly fair for the worker steps every queued job is eventually taken "
+             "(measure 2*queue position + executing + live workers; a fair demonstration run shows the hypotheses are satisfiable). Tied by concurrent trace acceptance: hook events from inside the critical sections.",
         note="Trusted: Lean kernel + 3 standard axioms; critical-section atomicity and goroutine scheduling modelled; tie = acceptance of this run's concurrent event logs by the LTS.",
         technique="Lean 4 proof (inductive invariant over an LTS with unbounded worker population) + concurrent trace acceptance"),
 })
